@@ -13,27 +13,40 @@ ns = {}
 exec(compile(src, "run_seeds", "exec"), ns)
 allkeys = ns["allkeys"]
 names = sys.argv[1:] or sorted(n for n in os.listdir("/verif/refactors") if os.path.isdir(os.path.join("/verif/refactors", n)))
-base = allkeys("/repo")
+bases = {}
+def base_keys(commit):
+    if commit not in bases:
+        wt = tempfile.mkdtemp(prefix="refbase-", dir="/tmp"); os.rmdir(wt)
+        try:
+            subprocess.run(["git", "-C", "/repo", "worktree", "add", "--detach", wt, commit], check=True, capture_output=True)
+            bases[commit] = allkeys(wt)
+        finally:
+            subprocess.run(["git", "-C", "/repo", "worktree", "remove", "--force", wt], capture_output=True)
+            subprocess.run(["rm", "-rf", wt])
+    return bases[commit]
 rows = []
 for n in names:
     d = os.path.join("/verif/refactors", n)
+    meta = json.load(open(os.path.join(d, "meta.json")))
+    commit = meta.get("base", "HEAD")
+    base = base_keys(commit)
     wt = tempfile.mkdtemp(prefix="refrun-", dir="/tmp"); os.rmdir(wt)
     try:
-        subprocess.run(["git", "-C", "/repo", "worktree", "add", "--detach", wt, "HEAD"], check=True, capture_output=True)
+        subprocess.run(["git", "-C", "/repo", "worktree", "add", "--detach", wt, commit], check=True, capture_output=True)
         subprocess.run(["git", "apply", os.path.join(d, "patch.diff")], cwd=wt, check=True, capture_output=True)
         got = allkeys(wt)
     finally:
         subprocess.run(["git", "-C", "/repo", "worktree", "remove", "--force", wt], capture_output=True)
         subprocess.run(["rm", "-rf", wt])
-    det = {"new_reports": {}, "errors": {}}
+    det = {"base": commit, "new_reports": {}, "errors": {}}
     for p, (k, err) in got.items():
         if err:
             det["errors"][p] = err; continue
-        new = [x for x in k if x not in set(base[p][0])]
+        new = [x for x in k if x not in set(base[p][0] or [])]
         if new: det["new_reports"][p] = new
     det["silent"] = not det["new_reports"] and not det["errors"]
     json.dump(det, open(os.path.join(d, "detection.json"), "w"), indent=1)
-    print(n, "SILENT" if det["silent"] else "FALSE-ALARM", json.dumps(det["new_reports"])[:1500], json.dumps(det["errors"])[:300], flush=True)
+    print(n, "SILENT" if det["silent"] else "FALSE-ALARM", json.dumps(det["new_reports"])[:2500], json.dumps(det["errors"])[:300], flush=True)
     rows.append((n, "silent" if det["silent"] else "**reported**", "; ".join(f"{p}: {', '.join(v)}" for p, v in det["new_reports"].items()) or "–"))
 if not sys.argv[1:]:
     with open("/verif/refactors/RESULTS.md", "w") as f:
